@@ -34,6 +34,88 @@ theorem empty_drops_payload (p : Packet) (h : PktWF p) (hc : p.header.code = .Em
 
 /-! ### any order of API calls -/
 
+/-! #### byte algebra behind the header setters -/
+
+private theorem and_or (x y z : UInt8) : x &&& (y ||| z) = (x &&& y) ||| (x &&& z) := by
+  simp [← UInt8.toBitVec_inj, BitVec.and_or_distrib_left]
+
+private theorem or_lc (x y z : UInt8) : x ||| (y ||| z) = y ||| (x ||| z) := by
+  rw [← UInt8.or_assoc, UInt8.or_comm x y, UInt8.or_assoc]
+
+/-- masking a masked byte: combine the two constant masks -/
+private theorem and_and (m₁ m₂ b : UInt8) : m₁ &&& (m₂ &&& b) = (m₁ &&& m₂) &&& b :=
+  (UInt8.and_assoc m₁ m₂ b).symm
+
+private theorem ver_field : ∀ v : Fin 4,
+    (0xCF : UInt8) &&& (UInt8.ofNat v.val <<< 6) = UInt8.ofNat v.val <<< 6 ∧
+    (0xF0 : UInt8) &&& (UInt8.ofNat v.val <<< 6) = UInt8.ofNat v.val <<< 6 ∧
+    (UInt8.ofNat v.val <<< 6) >>> 6 = UInt8.ofNat v.val := by decide
+
+private theorem typ_field : ∀ t : MessageType,
+    (0x3F : UInt8) &&& (UInt8.ofNat (MessageType.toBits t) <<< 4) = UInt8.ofNat (MessageType.toBits t) <<< 4 ∧
+    (0xF0 : UInt8) &&& (UInt8.ofNat (MessageType.toBits t) <<< 4) = UInt8.ofNat (MessageType.toBits t) <<< 4 ∧
+    (0x30 : UInt8) &&& (UInt8.ofNat (MessageType.toBits t) <<< 4) = UInt8.ofNat (MessageType.toBits t) <<< 4 ∧
+    MessageType.ofBits? ((UInt8.ofNat (MessageType.toBits t) <<< 4) >>> 4).toNat = some t := by
+  intro t; cases t <;> decide
+
+private theorem tkl_field : ∀ k : Fin 16,
+    (0x3F : UInt8) &&& UInt8.ofNat k.val = UInt8.ofNat k.val ∧
+    (0xCF : UInt8) &&& UInt8.ofNat k.val = UInt8.ofNat k.val ∧
+    (0x0F : UInt8) &&& UInt8.ofNat k.val = UInt8.ofNat k.val ∧
+    (0xF0 : UInt8) &&& UInt8.ofNat k.val = 0 := by decide
+
+private theorem low6_shr (b : UInt8) : ((0x3F : UInt8) &&& b) >>> 6 = 0 :=
+  byte_forall (fun b => ((0x3F : UInt8) &&& b) >>> 6 = 0) (by decide +kernel) b
+
+private theorem masks :
+    (0x3F : UInt8) &&& 0xCF = 0x0F ∧ (0xCF : UInt8) &&& 0x3F = 0x0F ∧
+    (0xF0 : UInt8) &&& 0x3F = 0x30 ∧ (0x3F : UInt8) &&& 0xF0 = 0x30 ∧
+    (0xF0 : UInt8) &&& 0xCF = 0xC0 ∧ (0xCF : UInt8) &&& 0xF0 = 0xC0 ∧
+    (0x30 : UInt8) &&& 0xCF = 0 ∧ (0x0F : UInt8) &&& 0xF0 = 0 := by decide
+
+/-! #### the setters, for an arbitrary header (any first byte, code, message id) -/
+
+theorem setVersion_setType_comm (h : Header) (v : Fin 4) (t : MessageType) :
+    (h.setType t).setVersion (UInt8.ofNat v.val) = (h.setVersion (UInt8.ofNat v.val)).setType t := by
+  obtain ⟨v1, _, _⟩ := ver_field v
+  obtain ⟨t1, _, _, _⟩ := typ_field t
+  simp only [Header.setVersion, Header.setType, and_or, and_and, masks, v1, t1]
+  rw [or_lc]
+
+theorem setTkl_setVersion (h : Header) (v : Fin 4) (k : Fin 16) :
+    (h.setVersion (UInt8.ofNat v.val)).setTkl (UInt8.ofNat k.val) =
+      (h.setTkl (UInt8.ofNat k.val)).map (fun h => h.setVersion (UInt8.ofNat v.val)) := by
+  obtain ⟨_, v2, _⟩ := ver_field v
+  obtain ⟨k1, _, _, k4⟩ := tkl_field k
+  simp only [Header.setVersion, Header.setTkl, k4, ne_eq, not_true_eq_false, if_false, Res.map,
+    and_or, and_and, masks, v2, k1]
+  rw [or_lc]
+
+theorem setTkl_setType (h : Header) (t : MessageType) (k : Fin 16) :
+    (h.setType t).setTkl (UInt8.ofNat k.val) =
+      (h.setTkl (UInt8.ofNat k.val)).map (fun h => h.setType t) := by
+  obtain ⟨_, t2, _, _⟩ := typ_field t
+  obtain ⟨_, k2, _, k4⟩ := tkl_field k
+  simp only [Header.setType, Header.setTkl, k4, ne_eq, not_true_eq_false, if_false, Res.map,
+    and_or, and_and, masks, t2, k2]
+  rw [or_lc]
+
+theorem getVersion_setVersion (h : Header) (v : Fin 4) :
+    (h.setVersion (UInt8.ofNat v.val)).getVersion = UInt8.ofNat v.val := by
+  obtain ⟨_, _, v3⟩ := ver_field v
+  simp only [Header.setVersion, Header.getVersion, UInt8.shiftRight_or, low6_shr, v3, UInt8.or_zero]
+
+theorem getType_setType (h : Header) (t : MessageType) : (h.setType t).getType = .ok t := by
+  obtain ⟨_, _, t3, t4⟩ := typ_field t
+  simp only [Header.setType, Header.getType, Header.typeBits, and_or, and_and, masks, t3,
+    UInt8.zero_and, UInt8.or_zero, t4]
+
+theorem getTkl_setTkl (h : Header) (k : Fin 16) :
+    (h.setTkl (UInt8.ofNat k.val)).map Header.getTkl = .ok (UInt8.ofNat k.val) := by
+  obtain ⟨_, _, k3, k4⟩ := tkl_field k
+  simp only [Header.setTkl, k4, ne_eq, not_true_eq_false, if_false, Res.map, Header.getTkl,
+    and_or, and_and, masks, k3, UInt8.zero_and, UInt8.or_zero]
+
 /-- header setters act on disjoint bit fields: over all 256 first bytes, all
 versions 0–3, all types and all token lengths 0–15 they commute pairwise and a
 later write to one field wins -/
@@ -47,7 +129,9 @@ theorem header_setters_commute :
       (K (V h)) = (K h).map V ∧ (K (T h)) = (K h).map T ∧
       (V h).getVersion = UInt8.ofNat v.val ∧ (T h).getType = .ok t ∧
       (K h).map Header.getTkl = .ok (UInt8.ofNat k.val) := by
-  decide +kernel
+  intro b v k t _
+  exact ⟨setVersion_setType_comm _ v t, setTkl_setVersion _ v k, setTkl_setType _ t k,
+    getVersion_setVersion _ v, getType_setType _ t, getTkl_setTkl _ k⟩
 
 /-- adding values for different option numbers commutes; the resulting map
 does not depend on the order of the calls -/
